@@ -109,8 +109,8 @@ func TestProp(t *testing.T) {
 	c.Check(t, func(rt *rapid.T) {
 		s := e2.DrawStructural(rt, e2.StructOpt{
 			Env:    progen.EnvOpt{ExportedOnly: true, NoPrivateExt: true, DistinctExt: true, PtrKeys: true, Avoid: c.ActiveSet()},
-			NTypes: 14,
-			Roles:  []string{"gostring"},
+			NTypes: 14, Carriers: true,
+			Roles: []string{"gostring"},
 			EnumFn: func(env *progen.Env) []*progen.Type {
 				// every kind of struct key x basic and non-basic elements (the map printer has one branch per combination)
 				var out []*progen.Type
@@ -131,6 +131,17 @@ func TestProp(t *testing.T) {
 				}
 				for i, k := range keys {
 					out = append(out, progen.MapOf(k, elems[i%len(elems)]), progen.MapOf(k, elems[(i+1)%len(elems)]))
+				}
+				// pointers to named basic types as fields (the field printer has its own pointer-to-basic branch)
+				var pf []*progen.Type
+				for _, d := range append(append([]*progen.Decl{}, env.NamedBasic...), env.ExtBasic...) {
+					if len(pf) < 4 {
+						pf = append(pf, progen.PtrTo(progen.NamedT(d)))
+					}
+				}
+				if len(pf) > 0 {
+					pf = append(pf, progen.PtrTo(pf[0]))
+					out = append(out, e2.Carrier(env, "WP", pf...))
 				}
 				return out
 			},
